@@ -83,10 +83,14 @@ LineToks(i) ==
 
 TokensMatch(exp, got) == Len(exp) = Len(got) /\ \A j \in 1..Len(exp) : exp[j] = AnyTok \/ exp[j] = got[j]
 
+\* "generator tool name": the tool registered under the id in the high half of the generator word
+\* (SPIR-V registry spir-v.xml, ids 0..15; the rendering of unregistered ids is not constrained)
+GeneratorNames == <<"The Khronos Group", "LunarG", "Valve", "Codeplay", "NVIDIA", "ARM", "LLVM/SPIR-V Translator",
+                    "SPIR-V Tools Assembler", "Glslang", "Qualcomm", "AMD", "Intel", "Imagination", "Shaderc", "spiregg", "rspirv">>
 HeaderLinesOK(h, lines) ==
   /\ Len(lines) >= 4
   /\ lines[1] = "; SPIR-V"
   /\ lines[2] = "; Version: " \o ToString(h.version[1] % 256) \o "." \o ToString(h.version[2] \div 256)
-  /\ (h.generator[1] = 15 => lines[3] = "; Generator: rspirv")
+  /\ (h.generator[1] < 16 => lines[3] = "; Generator: " \o GeneratorNames[h.generator[1] + 1])
   /\ (Dec(h.bound) # AnyTok => lines[4] = "; Bound: " \o Dec(h.bound))
 =============================================================================
